@@ -96,6 +96,9 @@ func (verify *VerifyServerController) handlePairVerifyStart(in util.Container) (
 	var otherPublicKey [32]byte
 	copy(otherPublicKey[:], clientPublicKey)
 
+	// every exchange gets its own ephemeral key pair: the messages of an
+	// earlier exchange on the connection must not fit this one
+	verify.session = NewVerifySession()
 	verify.session.GenerateSharedKeyWithOtherPublicKey(otherPublicKey)
 	verify.session.SetupEncryptionKey([]byte("Pair-Verify-Encrypt-Salt"), []byte("Pair-Verify-Encrypt-Info"))
 
